@@ -101,13 +101,17 @@ func (s spec) lib() wsflate.Parameters {
 }
 
 var (
-	smwbValues   = []int{0, 8, 9, 10, 11, 12, 13, 14, 15}
-	cmwbOffered  = []int{0, 1, 8, 9, 10, 11, 12, 13, 14, 15}
-	cmwbConfig   = []int{0, 8, 9, 10, 11, 12, 13, 14, 15}
-	bools        = []bool{false, true}
-	allOffers    = enumerate(cmwbOffered) // 360
-	allConfigs   = enumerate(cmwbConfig)  // 324
-	foreignNames = []string{"x-webkit-deflate-frame", "permessage-bzip2", "permessage-deflate2", "permessage-deflat", "foo"}
+	smwbValues  = []int{0, 8, 9, 10, 11, 12, 13, 14, 15}
+	cmwbOffered = []int{0, 1, 8, 9, 10, 11, 12, 13, 14, 15}
+	cmwbConfig  = []int{0, 8, 9, 10, 11, 12, 13, 14, 15}
+	bools       = []bool{false, true}
+	allOffers   = enumerate(cmwbOffered) // 360
+	allConfigs  = enumerate(cmwbConfig)  // 324
+	// Extension names are case-sensitive tokens here (the negotiator and
+	// ws.Dialer compare them byte for byte): a name differing from
+	// permessage-deflate only in letter case is a foreign extension.
+	foreignNames = []string{"x-webkit-deflate-frame", "permessage-bzip2", "permessage-deflate2", "permessage-deflat", "foo",
+		"Permessage-Deflate", "PERMESSAGE-DEFLATE", "permessage-Deflate", "permessage_deflate", "x-permessage-deflate"}
 )
 
 func enumerate(cm []int) []spec {
@@ -221,6 +225,33 @@ func direct(e ext) httphead.Option {
 			v = []byte(p.V)
 		}
 		o.Parameters.Set([]byte(p.K), v)
+	}
+	return o
+}
+
+// reprNames: how a valueless parameter is represented in the Option handed
+// to the library. All three are "no value" for httphead (len(value) == 0):
+// ParseOptions gives nil, httphead.NewOption(..., map{k: ""}) and
+// Option.Clone()/Copy() give an empty non-nil slice.
+var reprNames = []string{"nil", "empty-non-nil", "clone", "copy"}
+
+// directR is direct with the chosen representation of valueless parameters.
+func directR(e ext, repr int) httphead.Option {
+	o := httphead.Option{Name: []byte(e.Name)}
+	for _, p := range e.Params {
+		var v []byte
+		if p.V != "" {
+			v = []byte(p.V)
+		} else if repr%4 == 1 {
+			v = []byte{}
+		}
+		o.Parameters.Set([]byte(p.K), v)
+	}
+	switch repr % 4 {
+	case 2:
+		return o.Clone()
+	case 3:
+		return o.Copy(make([]byte, o.Size()+3))
 	}
 	return o
 }
@@ -529,9 +560,10 @@ func TestGrid(t *testing.T) {
 				return
 			}
 			if (ci+oi)%3 == 0 {
-				e2, msg := negotiateOnce(cfg, of, direct(el))
+				repr := (ci + oi) / 3 % 4
+				e2, msg := negotiateOnce(cfg, of, directR(el, repr))
 				if msg != "" {
-					hx.Failf(t, gridCase{cfg.String(), of.String(), "direct", e2.String()}, "%s", msg)
+					hx.Failf(t, gridCase{cfg.String(), of.String(), "direct/valueless=" + reprNames[repr], e2.String()}, "%s", msg)
 					return
 				}
 				if e2.String() != e.String() {
@@ -598,11 +630,14 @@ type step struct {
 func feed(x *wsflate.Extension, items []item, useText bool) ([]step, string) {
 	var out []step
 	for i, it := range items {
-		opt := direct(it.El)
+		opt := directR(it.El, i+len(it.El.Params))
 		if useText && allRenderable(it.El) {
 			var ok bool
 			if opt, ok = viaText(it.El, i%4); !ok {
 				return out, fmt.Sprintf("httphead.ParseOptions rejected %q", render(it.El, i%4))
+			}
+			if (i+len(items))%3 == 0 {
+				opt = opt.Clone() // what a handler keeping the offer beyond the callback would hold
 			}
 		}
 		ans, err := x.Negotiate(opt)
@@ -773,6 +808,9 @@ func TestListsPairs(t *testing.T) {
 		{El: ext{"x-webkit-deflate-frame", []kv{{kSMWB, "99"}}}},
 		{El: ext{"permessage-deflate2", []kv{{kCMWB, ""}}}},
 		{El: ext{"permessage-deflat", nil}},
+		{El: ext{"Permessage-Deflate", nil}},
+		{El: ext{"PERMESSAGE-DEFLATE", []kv{{kCMWB, ""}, {"foo", "1"}}}},
+		{El: ext{"permessage_deflate", []kv{{kSMWB, "10"}}}},
 	}
 	var n, both, one, none int64
 	cfgs := listConfigs()
@@ -1138,8 +1176,8 @@ var malformedConfigs = []spec{{}, {true, true, 15, 15}, {false, true, 8, 0}, {tr
 // report an error for e, built directly and — when it can be written as
 // header text — parsed from text.
 func mustReject(e ext, style int) (built string, msg string) {
-	opts := []httphead.Option{direct(e)}
-	names := []string{"direct"}
+	opts := []httphead.Option{direct(e), directR(e, 1), directR(e, 2)}
+	names := []string{"direct", "direct/valueless=empty-non-nil", "direct/clone"}
 	if allRenderable(e) {
 		o, ok := viaText(e, style)
 		if !ok {
@@ -1357,13 +1395,12 @@ func TestInverse(t *testing.T) {
 			return
 		}
 		dirty := []wsflate.Parameters{{}, spec{true, true, 15, 1}.lib(), spec{false, true, 8, 9}.lib()}
-		for di, q := range dirty {
-			src := o
-			if di == 1 {
-				src = back[0]
-			}
+		srcs := []httphead.Option{o, back[0], o, o.Clone(), o.Copy(make([]byte, o.Size())), back[0].Clone()}
+		srcNames := []string{"Option(p)", "Option(p) written and parsed back", "Option(p)", "Option(p).Clone()", "Option(p).Copy()", "parsed back, then Clone()"}
+		for di, src := range srcs {
+			q := dirty[di%len(dirty)]
 			if err := q.Parse(src); err != nil || q != p {
-				hx.Failf(t, invCase{Params: s.String(), Text: buf.String(), Got: fmt.Sprintf("%+v err=%v", q, err)}, "Parse(Option(p)) != p (receiver variant %d)", di)
+				hx.Failf(t, invCase{Params: s.String(), Text: buf.String(), Got: fmt.Sprintf("%+v err=%v", q, err)}, "Parse(%s) != p", srcNames[di])
 				return
 			}
 		}
@@ -1373,11 +1410,13 @@ func TestInverse(t *testing.T) {
 		// every ordering, spelled as tokens or quoted strings, direct or via text
 		for _, perm := range permutations(s.params()) {
 			el := ext{extName, perm}
-			for variant := 0; variant < 3; variant++ {
+			for variant := 0; variant < 6; variant++ {
 				var src httphead.Option
 				switch variant {
 				case 0:
 					src = direct(el)
+				case 3, 4, 5: // valueless parameters as empty non-nil slices / cloned / copied
+					src = directR(el, variant-2)
 				case 1, 2: // 2: quoted-string values
 					style := 2
 					if variant == 1 {
@@ -1409,7 +1448,7 @@ func TestInverse(t *testing.T) {
 	}
 	hx.EvalN(int(n + m))
 	hx.Part("inverse: Parse(Option(p)) == p for all 2x2x9x10 Parameters", n, true)
-	hx.Part("inverse: Option(Parse(o)) canonical for every ordering x 3 spellings of every well-formed list", m, true)
+	hx.Part("inverse: Option(Parse(o)) canonical for every ordering x 6 spellings/representations of every well-formed list", m, true)
 }
 
 // TestWindowBits: all 256 WindowBits values. Defined() == (b != 0) as
@@ -1946,6 +1985,7 @@ func TestWireSplits(t *testing.T) {
 		{El: ext{extName, []kv{{kCMWB, ""}, {kCMWB, "10"}}}, Malformed: true},
 		{El: ext{extName, []kv{{kSNCT, ""}, {kSMWB, "16"}}}, Malformed: true},
 		{El: ext{"permessage-deflate2", []kv{{kSMWB, "99"}}}},
+		{El: ext{"Permessage-Deflate", []kv{{kCMWB, ""}, {"foo", ""}}}},
 	}
 	cfgs := []spec{{}, {true, true, 9, 12}, {false, true, 15, 0}, {true, false, 0, 15}, {true, false, 8, 8}, {false, false, 12, 13}}
 	if hx.Thorough() {
@@ -1995,7 +2035,7 @@ func TestWireSplits(t *testing.T) {
 		}
 	}
 	hx.EvalN(n)
-	hx.Part(fmt.Sprintf("wire: %d configurations x all lists of 1..3 over a 6-element alphabet x every split over 1..3 header lines x 4 legacy-selector settings, both upgraders", len(cfgs)), int64(n), true)
+	hx.Part(fmt.Sprintf("wire: %d configurations x all lists of 1..3 over a 7-element alphabet x every split over 1..3 header lines x 4 legacy-selector settings, both upgraders", len(cfgs)), int64(n), true)
 }
 
 // TestWireGridSample: a deterministic slice of the grid through the Upgrader.
